@@ -47,7 +47,30 @@ def entry_points(w, u, start):
     by_link = lambda e, *a: ids(e) % 2 == 0 or True            # noqa: E731
     label = lambda v: f"v{ids(v)}"                             # noqa: E731
     key = lambda v: R.std_key(ids(v))                          # noqa: E731
-    opts = lambda cb: {**R.make_options(1), Vertex: {**R.make_options(1)[Vertex], "user_render_func": cb}}   # noqa: E731
+
+    class Hook:
+        """the callable that sits in the options table: the SAME object, in the same table, for the normal call, every faulting
+        call and every repeat (a caller does not rebuild its options between calls); it forwards to the current callback"""
+        target = None
+
+        def __call__(self, *a):
+            return self.target(*a)
+    hook = Hook()
+    puml_opts = {**R.make_options(1), Vertex: {**R.make_options(1)[Vertex], "user_render_func": hook}}
+
+    def run_puml(cb):
+        hook.target = cb["user_render_func"]
+        return R.canon_text(w, plantuml.render_to_plantuml_src(uni, puml_opts))
+
+    def canon(x):
+        if isinstance(x, dict):
+            # ("show_attrs" is compiled in place by the renderer - list of patterns -> one pattern of the same meaning; that is
+            # its documented way of working and no change of what the table says)
+            return sorted((str(k), canon(v)) for k, v in x.items() if k != "show_attrs")
+        if isinstance(x, (list, tuple)):
+            return [canon(v) for v in x]
+        return x if isinstance(x, (int, str, bool, float, type(None))) else f"object {id(x)}"
+    w.args_view = lambda: canon(puml_opts)       # the caller's own arguments are part of what must read as before
     AN, NB = helpers.DIR_SENS_ANY, helpers.LNK_UNKNOWN_NEIGHBOR
     eps = {
         "neighbors": (["filterfunc"], {"filterfunc": by_link},
@@ -60,7 +83,7 @@ def entry_points(w, u, start):
         "basic_render": (["rfunc", "sort"], {"rfunc": label, "sort": key},
                          lambda cb: plaintext.basic_render(uni, rfunc=cb["rfunc"], sort=cb["sort"])),
         "render_to_plantuml_src": (["user_render_func"], {"user_render_func": lambda v, o: f"object v{ids(v)}\n"},
-                                   lambda cb: R.canon_text(w, plantuml.render_to_plantuml_src(uni, opts(cb["user_render_func"])))),
+                                   run_puml),
         "make_pyvis_net": (["rvfunc", "refunc"], {"rvfunc": label, "refunc": lambda e: f"e{ids(e)}"},
                            lambda cb: [(e["from"], e["to"]) for e in egpyvis.make_pyvis_net(uni, rvfunc=cb["rvfunc"], refunc=cb["refunc"]).edges]),
         "pyvis_render_customizable": (["rvfunc", "refunc"], {"rvfunc": label, "refunc": lambda e: f"e{ids(e)}"},
@@ -87,6 +110,7 @@ def attr_view(w):
                 continue
             d[k] = [id(x) for x in v] if isinstance(v, list) else id(v) if not isinstance(v, (int, str, bool, type(None))) else v
         out.append(d)
+    out.append({"caller's options table": w.__dict__["args_view"]() if "args_view" in w.__dict__ else None})
     return out
 
 
@@ -100,7 +124,8 @@ class FaultEnumeration(Leg):
             "basic_render, render_to_plantuml_src with user_render_func, make_pyvis_net, pyvis_render_customizable, nrpickler.dumps) "
             "is run once counting the invocations n_c of each callback c, then again with a fault at the k-th invocation for EVERY "
             "k <= n_c (complete per case); after each run vars() of every object and the structural snapshot must equal the ones "
-            "before, neighbors() of every vertex must answer as the uncached recomputation did before the call (each entry point "
+            "before (in half the cases the vertices carry user attributes named like every identifier-like string literal of the library's sources; the options table "
+            "handed to the PlantUML renderer is one object for all runs and must read as before, too), neighbors() of every vertex must answer as the uncached recomputation did before the call (each entry point "
             "meets a fresh copy of the graph; with caching on its memos are cold in half of the cases and warm in the others), and the call repeated with well-behaved callbacks must "
             "give the normal answer; non-trivial = >= 3 fault points")
     quick_n = 40
@@ -116,7 +141,8 @@ class FaultEnumeration(Leg):
             if not members:
                 ops[-1] = ["NU", [vids[0]], None]
                 members = [vids[0]]
-            yield {"ops": ops, "u": u, "start": rng.choice(members), "caching": rng.random() < 0.5, "warm": rng.random() < 0.5}
+            yield {"ops": ops, "u": u, "start": rng.choice(members), "caching": rng.random() < 0.5, "warm": rng.random() < 0.5,
+                   "collisions": rng.random() < 0.5}
 
     def _build(self, case):
         w = H.World()
@@ -125,6 +151,8 @@ class FaultEnumeration(Leg):
         for i, o in enumerate(w.objs):
             if H.kind_of(o) in H.VERTEX_KINDS and i % 2:
                 o.tag = i
+        if case.get("collisions"):
+            H.decorate_with_collisions(w)       # user attributes named like the strings the library's own sources use
         Vertex.NEIGHBOR_CACHING = case["caching"]
         if case["caching"] and case.get("warm"):
             Q.warm_memo(w)             # half of the caching-on cases meet warm memos, the others cold ones
@@ -277,6 +305,7 @@ class NbFault(Leg):
                 try:
                     r = helpers.neighbors(vert, direction_sensitive=Q.DIRC[d], unknown_handling=Q.UNKC[u], filterfunc=filtf_py(w, f))
                     answers.append(["list", [w.id_of(x) for x in r]])
+                    Q._scribble(r)           # the answer is the caller's own list
                 except Boom:
                     answers.append(["boom"])
                 except Exception as e:  # noqa: BLE001
@@ -385,7 +414,9 @@ class TravFault(Leg):
                             uni = w.get(q[3], ["KUniverse"]) if q[3] is not None else None
                             r = self.KIND[q[2]](uni, w.get(q[4], H.VERTEX_KINDS), direction_sensitive=Q.DIRC[q[5]],
                                                 unknown_handling=Q.UNKC[q[6]], ff_via=cb)
-                        return ["list", [w.id_of(x) for x in r]]
+                        ans = ["list", [w.id_of(x) for x in r]]
+                        Q._scribble(r)       # the answer is the caller's own list
+                        return ans
                     except Boom:
                         return ["boom"]
                     except Exception as e:  # noqa: BLE001
